@@ -62,6 +62,7 @@ C07_Notif_OpenConfirmUnexpected == J => P_NotifClass("OCUnexpected", ph, pe, po)
 C07_Notif_EstablishedOpen == J => P_NotifClass("EstOpen", ph, pe, po)
 C07_Notif_UnsupportedOptParam == J => P_NotifClass("UnsupOpt", ph, pe, po)
 C07_Notif_KeepaliveLength == J => P_NotifClass("KaLen", ph, pe, po)
+C07_Notif_OpenWhileIdle == J => P_NotifClass("IdleOpen", ph, pe, po)
 C07_Notif_ManualStopEarly == J => P_NotifClass("ManualStopEarly", ph, pe, po)
 C07_Notif_NoSpurious == J => P_NotifClass("Spurious", ph, pe, po)
 C07_TimerInstant == J => P_TimerInstant(ph, pe, po, LargeHold)
@@ -81,6 +82,7 @@ C07_Notif_OpenConfirmUnexpected_KF == KFClass("OCUnexpected", Dev_OCUnexpected(p
 C07_Notif_EstablishedOpen_KF == KFClass("EstOpen", Dev_EstOpen(ph, pe, po))
 C07_Notif_UnsupportedOptParam_KF == KFClass("UnsupOpt", Dev_UnsupOpt(ph, pe, po))
 C07_Notif_KeepaliveLength_KF == KFClass("KaLen", Dev_KaLen(ph, pe, po))
+C07_Notif_OpenWhileIdle_KF == KFClass("IdleOpen", Dev_IdleOpen(ph, pe, po))
 C07_Notif_ManualStopEarly_KF == KFClass("ManualStopEarly", Dev_ManualStopEarly(ph, pe, po))
 C07_Notif_NoSpurious_KF == KFClass("Spurious", Dev_Spurious(ph, pe, po))
 C07_TimerInstant_KF == J => (S \/ P_TimerInstant(ph, pe, po, LargeHold))
@@ -89,5 +91,5 @@ C07_Timer_OpenConfirm_KF ==
 C07_NoRibEffectBeforeEstablished_KF == J => (S \/ P_NoRibEffectBeforeEstablished(ph, pe, po))
 (* KF-C07-collision, second face: the FSM goroutine adopts the outgoing connection but blocks in
    the OpenSent handler's deferred wait on the incoming one, still reporting OpenSent *)
-C07_ReportedMatchesReal_KF == J => (S \/ h.susp \/ P_ReportedMatchesReal(ph, pe, po, h))
+C07_ReportedMatchesReal_KF == J => (S \/ h.susp \/ Dev_DownButOutgoing(ph, pe, po, h))
 =============================================================================
